@@ -45,7 +45,8 @@ fn out_of_range(spec: &Spec, out: f64, prev: Option<f64>) -> Option<String> {
         (None, Some(h)) => h.abs(),
         _ => 0.0,
     };
-    let slack = ULPS * f64::EPSILON * mag;
+    // a statistic accumulated over N values carries O(N) roundings: 8 ulps up to N = 32, N/4 beyond
+    let slack = ULPS.max(spec.n as f64 / 4.0) * f64::EPSILON * mag;
     if let Some(l) = lo {
         if out < l - slack {
             return Some(format!("{:e} is below the lower bound {:e} by {:e} ({:.1} ulps of the bound)", out, l, l - out, (l - out) / (f64::EPSILON * mag.max(f64::MIN_POSITIVE))));
@@ -236,6 +237,43 @@ fn closed(spec: &Spec, cap: usize, st: &mut Stats, sink: &Sink) {
     );
 }
 
+/// Scale families (a run past 2^16 updates, a window past 2^8): the bound at every step of the four
+/// integer-valued drivers of `scale_drivers` and of their images under x -> 0.7x + 0.1
+/// (non-representable values); shifted by +20 for the views that take positive input only.
+fn scale_runs(spec: &Spec, len: usize, st: &mut Stats, sink: &Sink) {
+    let shift = if positive_only(spec) { 20.0 } else { 0.0 };
+    let mut drivers: Vec<Vec<f64>> = vec![];
+    for (_, d) in super::common::scale_drivers(len, spec.n.max(1)) {
+        drivers.push(d.iter().map(|x| x + shift).collect());
+        drivers.push(d.iter().map(|x| 0.7 * (x + shift) + 0.1).collect());
+    }
+    st.configs += 1;
+    for h in drivers {
+        let Ok(mut s) = guard(|| S { v: build::<f64>(spec), prev: None, recent: vec![] }) else {
+            st.skipped_configs += 1;
+            return;
+        };
+        let r = guard(|| {
+            for i in 0..h.len() {
+                if step(spec, &mut s, h[i], &h[..=i], st, sink) == Step::Prune {
+                    return true;
+                }
+            }
+            false
+        });
+        st.states += h.len() as u64;
+        st.traces += 1;
+        match r {
+            Ok(false) => {}
+            Ok(true) => return,
+            Err(m) => {
+                sink.push(Violation::new("C07", spec, "panicked", "f64", &h, m));
+                return;
+            }
+        }
+    }
+}
+
 /// Min <= Sma, Alma, newest value <= Max over the same window
 fn relational(n: usize, pdepth: usize, st: &mut Stats, sink: &Sink) {
     #[derive(Clone)]
@@ -386,6 +424,18 @@ pub fn run(ctx: &Ctx) -> CheckOutput {
             relational(n, pdepth, &mut st, &sink);
             JobOut { stats: st, viols: sink.take(), samples: vec![json!({"clause":"Min <= Sma, Alma, newest <= Max","N":n})] }
         }));
+    }
+    // scale families: long run (N = 5, 66 000 updates) and wide window (N = 300; 260 for NET)
+    for (label, n, len) in [("long run", 5usize, 66_000usize), ("wide window", 300, 1_300)] {
+        for spec in specs(n) {
+            let spec = if spec.kind == Kind::Net && n > 260 { Spec { n: 260, ..spec } } else { spec };
+            jobs.push(Box::new(move || {
+                let mut st = Stats::default();
+                let sink = Sink::new();
+                scale_runs(&spec, len, &mut st, &sink);
+                JobOut { stats: st, viols: sink.take(), samples: vec![json!({"explorer":"LONG","view":spec.name(),"family":label,"steps":len,"drivers":"4 integer-valued streams and their images under 0.7x+0.1, the bound at every step"})] }
+            }));
+        }
     }
     let o = run_jobs(jobs, ctx.seed);
     CheckOutput {
